@@ -508,3 +508,39 @@ Definition rstep (tab : list Z) (r : rstate) (o : rop) : rstate * list Z :=
   end.
 Definition rrun (tab : list Z) (r : rstate) (ops : list rop) : rstate :=
   fold_left (fun r o => fst (rstep tab r o)) ops r.
+
+(* ------------------------------------------------------------------ layer 2 as a machine: the `alloc` command of the harness
+   Slots are append-only: slot k holds the pointer returned by the k-th a / r token (None = null pointer / refused).
+   A defect (allocate(0) of the unrepaired code, no size class) leaves the pool as it was. *)
+Inductive pop :=
+| PAlloc (sz : Z)                    (* slots += GivMMFreeList::allocate(sz) *)
+| PFree (k : nat)                    (* GivMMFreeList::desallocate(slots[k]) *)
+| PResize (k : nat) (old new : Z).   (* slots += GivMMFreeList::resize(slots[k], old, new) *)
+Record pstate := mkP { p_a : astate; p_slots : list (option nat) }.
+Definition pinit := mkP ainit [].
+Definition pslot (s : pstate) (k : nat) : option nat := nth k (p_slots s) None.
+Definition pstep (fixed0 : bool) (tab : list Z) (s : pstate) (o : pop) : pstate * option nat * option adefect :=
+  match o with
+  | PAlloc sz =>
+    match fl_allocate fixed0 tab (p_a s) sz with
+    | (a1, p, None) => (mkP a1 (p_slots s ++ [p]), p, None)
+    | (_, _, Some d) => (mkP (p_a s) (p_slots s ++ [None]), None, Some d)
+    end
+  | PFree k => let '(a1, d) := fl_desallocate (p_a s) (pslot s k) in (mkP a1 (p_slots s), None, d)
+  | PResize k old new =>
+    match fl_resize tab (p_a s) (pslot s k) old new with
+    | (a1, p, None) => (mkP a1 (p_slots s ++ [p]), p, None)
+    | (_, p, Some d) => (mkP (p_a s) (p_slots s ++ [p]), p, Some d)
+    end
+  end.
+Definition prun (fixed0 : bool) (tab : list Z) (s : pstate) (ops : list pop) : pstate :=
+  fold_left (fun s o => fst (fst (pstep fixed0 tab s o))) ops s.
+
+(* ------------------------------------------------------------------ layers 1 + 3 together: Array0 operations on the pool
+   (what the driver executes: every allocator call a member function makes is interpreted by the pool, in program order) *)
+Definition cstep (fx : fixes) (tab : list Z) (elsize : Z) (sc : state * cstate) (o : op) : (state * cstate) * option defect :=
+  let r := step fx (fst sc) o in ((r_s r, apply_events tab elsize (snd sc) (r_ev r)), r_df r).
+Definition crun (fx : fixes) (tab : list Z) (elsize : Z) (sc : state * cstate) (ops : list op) : state * cstate :=
+  fold_left (fun sc o => fst (cstep fx tab elsize sc o)) ops sc.
+(* blocks the pool has handed out and not got back *)
+Definition outstanding (c : cstate) : nat := length (a_out (c_a c)).
